@@ -2,6 +2,7 @@
 (***************************************************************************)
 (* Trace validation (binding B2, code -> spec) for Bezier curves.          *)
 (* C14 (P = 46337, residues): evaluate, evaluate_derivative, split, matrix,*)
+(* normalized_tangent (derivative of witnessed rational length),           *)
 (* conversions, matrix action; the unit circle on floats (integers scaled  *)
 (* by 2^14, checked with the tolerance of the statement).                  *)
 (* C15 (P = -1, exact pairs): extrema, inflections, bounding boxes and the *)
@@ -93,8 +94,12 @@ LengthOk(e) == /\ WitLen(e.chord, e.pts[1], e.pts[Len(e.pts)])
                /\ e.chord <= e.obs[1] + 4                                   \* at least the chord
                /\ \A i \in 1 .. Len(e.obs) : e.obs[i] <= FSum(e.legs) + 4     \* at most the control polygon
                /\ \A i \in 1 .. (Len(e.obs) - 1) : e.obs[i] <= e.obs[i + 1] + 4   \* refinement by doubling does not decrease
-AxiomOps == {"bez_circle", "bez_extrema", "bez_bounds", "bez_search", "bez_length"}
+\* normalized tangent: a unit vector which, scaled by the witnessed length of the derivative (a positive rational by
+\* construction of the record), gives the derivative back: same direction AND same orientation
+TangentOk(e) == Dot(e.obs, e.obs) = F1 /\ VScale(e.obs, e.len) = Deriv(e.pts, e.t) /\ e.len # F0
+AxiomOps == {"bez_tangent", "bez_circle", "bez_extrema", "bez_bounds", "bez_search", "bez_length"}
 Conforms(e) == e.pan = 0 /\ CASE e.op = "bez_circle" -> CircleOk(e)
+                              [] e.op = "bez_tangent" -> TangentOk(e)
                               [] e.op = "bez_extrema" -> ExtremaOk(e)
                               [] e.op = "bez_bounds" -> BoundsOk(e)
                               [] e.op = "bez_search" -> SearchOk(e)
@@ -118,8 +123,9 @@ BezExtrema == Step("bez_extrema")
 BezBounds == Step("bez_bounds")
 BezSearch == Step("bez_search")
 BezLength == Step("bez_length")
+BezTangent == Step("bez_tangent")
 Next == BezEval \/ BezDeriv \/ BezSplit \/ BezConv \/ BezMatrixA \/ BezMulA \/ BezCircle
-        \/ BezExtrema \/ BezBounds \/ BezSearch \/ BezLength
+        \/ BezExtrema \/ BezBounds \/ BezSearch \/ BezLength \/ BezTangent
 Accepted == IF TLCGet("stats").diameter - 1 = Len(Rec) THEN TRUE
             ELSE PrintT(ToJson([tag |-> "REJECTED_AT", l |-> TLCGet("stats").diameter])) /\ FALSE
 =============================================================================
